@@ -28,7 +28,7 @@ R = [
  (r"scanner\.go:scanner\.Find:loop:for$", "waiver: an iteration without a match refills; the window moves forward by at least scannerBufSize - regexpOverlap bytes while the buffer is full and the loop ends with io.EOF as soon as a refill adds nothing to a non-full buffer (Find belongs to C20; monitored by the C05 hang watchdog)"),
  (r"scanner\.go:scanner\.Find:slice:s\.buf\[s\.pos\+a", "regexp contract: 0 <= a <= b <= length of the searched slice s.buf[s.pos:s.used]"),
  (r"scanner\.go:scanner\.(Find|SkipAfter|PeekN|refill):slice:s\.buf\[s\.pos:s\.used\]", "lemma C05robbuf.Coh.pos_le: pos <= used <= len(buf) is an invariant of every modelled operation (refill_spec, peekN_spec, scanBytes_spec keep Coh)"),
- (r"scanner\.go:scanner\.PeekN:panic:", "model: ROB.peekN sets `panicked` for n > bufSize (harness line p1025); callers pass 1, 2, 3, 4, 5, 6, 20, len of the literals given to SkipString (at most 9), and getFromObjStm passes avail with 0 < avail <= 64 (`avail := 64`, then only min(avail, …), used behind `if avail > 0`); all at most scannerBufSize = 1024"),
+ (r"scanner\.go:scanner\.PeekN:panic:", "model: ROB.peekN sets `panicked` for n > bufSize (harness line p1025); callers pass 1, 2, 3, 4, 5, 6, 20 and len of the literals given to SkipString (at most 9)"),
  (r"scanner\.go:scanner\.PeekN:slice:s\.buf\[s\.pos : s\.pos\+n\]", "guard: reached only when s.pos+n <= s.used (second test of PeekN); lemma C05robbuf.peekN_spec"),
  (r"scanner\.go:scanner\.ReadArray:assert:", "lemma C01g.parse_total: the model mirrors this as `match acc with | .int b :: .int a :: acc' => … | _ => .error .other`; parse_total shows that no input makes the parser return `.other`, so whenever integersSeen >= 2 the last two elements are Integers"),
  (r"scanner\.go:scanner\.ReadArray:index:array\[", "lemma C01g.parse_total: see the assertions above; integersSeen >= 2 implies len(array) >= 2, so k-2 >= 0"),
@@ -43,6 +43,8 @@ R = [
  (r"scanner\.go:scanner\.ReadName:index:class\[b\]", "table: class has 256 entries and the index is a byte"),
  (r"scanner\.go:scanner\.ReadObject:index:buf\[0\]", "guard: `case len(buf) == 0` is the first case of the switch"),
  (r"scanner\.go:scanner\.ReadStreamData:index:buf\[[01]\]", "guard: each use is behind len(buf) >= 1 resp. len(buf) >= 2 in the same condition"),
+ (r"scanner\.go:scanner\.readReferenceTail:index:buf\[0\]", "guard: `len(buf) > 0 &&` short-circuits before the index"),
+ (r"scanner\.go:scanner\.readReferenceTail:index:class\[", "table: class has 256 entries and the index is a byte"),
  (r"scanner\.go:scanner\.ReadString:index:buf\[0\]", "guard: `len(buf) == 0 ||` short-circuits before the index"),
  (r"scanner\.go:scanner\.ScanBytes:index:s\.buf\[s\.pos\]", "guard: loop condition s.pos < s.used <= len(buf)"),
  (r"scanner\.go:scanner\.ScanBytes:loop:for$", "lemma C05robbuf.scanBytes_terminates: the bytes the reader has not delivered yet decrease with every iteration that does not return (the D8 fix supplies the return after a latched error)"),
@@ -63,10 +65,6 @@ R = [
  (r"reader\.go:Reader\.get:index:r\.xref\[", "map access (IsFree accepts the nil entry)"),
  (r"reader\.go:(Reader\.getID|getIDDirect):index:id\[i\]", "guard: id has 2 entries and i ranges over arr with len(arr) == 2 tested"),
  (r"reader\.go:getFromObjStm:index:contents\.idx\[m\]", "guard: m < 0 returns first; m is an index found by ranging over contents.idx"),
- (r"reader\.go:referenceTail:index:buf\[i\+1\]", "guard: `i+1 < len(buf) &&` short-circuits before the index"),
- (r"reader\.go:referenceTail:index:class\[", "table: class has 256 entries and the index is a byte"),
- (r"reader\.go:referenceTail:index:buf\[i\]", "guard: every use is behind `i < len(buf) &&` in the same condition (the three loop conditions; `int(buf[i]-'0')` is in the body of the loop whose condition has just tested it) resp. behind `i >= len(buf) ||` in the test for 'R'; i only grows from 0"),
- (r"reader\.go:referenceTail:loop:", "guard: i is incremented in every iteration and bounded by len(buf) <= 64 (the digit loop also by digits < 6)"),
  (r"reader\.go:getObjStm:index:idx\[i\]", "guard: i ranges over n = len(idx) resp. over idx"),
  # ---------------- xref.go
  (r"xref\.go:Reader\.lastOccurence:loop:", "guard: the new pos is start+k-1 with start = max(pos-1024, 0), which is smaller than pos (k = 9 < 1025) or below k"),
@@ -98,6 +96,8 @@ R = [
  # ---------------- resolve.go, container.go
  (r"resolve\.go:resolvePath:loop:for$", "lemma C05rob.resolve_fuel_suffices, C05rob.resolve_depth: path.step bounds the number of iterations by MaxExtractDepth"),
  (r"container\.go:DecodeStream:index:filters\[0\]", "guard: len(filters) > 0 in the same condition"),
+ (r"container\.go:DecodeStream:index:lower\[i\]", "guard: i runs from len(lower)-1 down to 0 in the loop header (i >= 0 tested before every use, i < len(lower) initially and only decremented)"),
+ (r"container\.go:sourceAwareReader\.Close:index:s\.lower\[i\]", "guard: i runs from len(s.lower)-1 down to 0 in the loop header (i >= 0 tested before every use, i < len(s.lower) initially and only decremented)"),
  (r"container\.go:GetFilters:index:pa\[i\]", "guard: len(pa) > i"),
  (r"container\.go:RawStreamReader:panic:", "the switch covers the four values of cryptRecipe that streamCryptRecipe returns"),
  (r"container\.go:filterChainStartsWithCrypt:index:f\[0\]", "guard: len(f) == 0 returns first"),
